@@ -20,6 +20,10 @@ CHECKS = {
          'exact integer predicates; complete for all vertex lists of length 0..4 on a 4x4 grid x 81 query points (thorough: +5-vertex '
          'and 5x5), sampled beyond that',
          'trusts the 60-line integer oracle (oracle_geom.cpp, no gdstk headers); coordinates restricted to exactly representable dyadic values', '7/C14'),
+ 'C17': ('exploration', 'differential monitor: partial readers vs full reader vs independent decoder; byte-level comparison of re-emitted raw cells and timestamp rewrites',
+         'gds_info/gds_units/gds_timestamp, filtered and rescaled loads, raw-cell copies and timestamp rewrites are compared with the full load '
+         'and with the independent decoder on files from both writers',
+         'trusts py/gds_codec.py; filter sets, units and cell subsets are sampled', '7/C17'),
  'C18': ('fault_enumeration', 'crash-point (prefix) enumeration in forked children under ASan+UBSan with descriptor-count and result monitors',
          'every prefix length of every generated file (complete per file for files <= 4 KiB) x every reader named by the property; '
          'the monitor decides on how the child ended, the returned codes/values and /proc/self/fd counts, also after 50 repeated calls '
